@@ -41,6 +41,8 @@ def applyOp (m : Mat K) (op : String) : P (Mat K × String) := do
   | "eye" => let n ← pNat; st (Mat.eye n)
   | "new" => let r ← pNat; let c ← pNat; let x ← Wire.rd; st (.ok (Mat.new r c x))
   | "clear" => st (.ok (Mat.clear m))
+  | "empty" => st (.ok Mat.empty)
+  | "swapelem" => let i1 ← pNat; let j1 ← pNat; let i2 ← pNat; let j2 ← pNat; st (Mat.swapElem m i1 j1 i2 j2)
   | "clonemut" => let x ← Wire.rd; st (Mat.fillDiag m x)
   | _ => throw s!"unknown matrix op {op}"
 
